@@ -70,9 +70,9 @@ Qed.
 Print Assumptions C03_error_entry.
 
 (* Non-vacuity: root 1 imports 2 (a load error) and 3 (redirect loop 3 -> 4 -> 3). *)
-Definition c03_dep (t : N) (target : spec) : dep * bool :=
+Definition c03_dep (t : N) (target : spec) : dep * dflags :=
   ({| d_text := t; d_filelike := false; d_code := ROk target 7; d_type := RNone; d_dyn := false;
-      d_deno_types := false; d_attr := 0 |}, false).
+      d_deno_types := false; d_attr := 0 |}, plain_dep).
 Definition c03_world : world :=
   {| w_resp := [(1, WModule 1 {| wm_hash_raw := 0; wm_hash_text := 0; wm_media := MTypeScript; wm_parse_ok := true; wm_kind := MkJs;
                                  wm_deps := [c03_dep 10 2; c03_dep 11 3]; wm_tdep := None |});
